@@ -7,21 +7,26 @@ HARNESS = {'name': 'split',
 
 CONFIG = {
     'subs': ['Split', 'RecordIO'],
-    'props_modules': ['DmlcModel.Props.C03', 'DmlcModel.Props.C03Witness'],
+    'props_modules': ['DmlcModel.Props.C03', 'DmlcModel.Props.C03Witness', 'DmlcModel.Props.C03Files'],
     'driver': 'Split',
     'harness': HARNESS,
     'rule': 'cases = file lists x cover groups (for one (n, w, mode): parts k = 0..n-1, each constructed and consumed to '
             'the end). Exhaustive: all lists of <=2 (thorough: 3) non-empty files of total <=5 (6) bytes over {a,\\n,\\r} x every '
             'n in 1..total+2 x w in 1..2 (1..4) words x NextRecord / NextChunk; corpus of the layouts named in the property; '
             'random: up to 8 files, long lines, \\n / \\r\\n / \\r / mixed, missing final newline, buffers up to 40 words, mixed '
-            'consumption, SingleThreadedInputSplit; default 8 MB buffer and InputSplit::Create on real files. Non-trivial = at '
+            'consumption, SingleThreadedInputSplit; default 8 MB buffer and InputSplit::Create on real files; URI cases: random '
+            'directory trees (depth <= 3, empty files) x ;-lists of files / directories / trailing slashes / missing names / duplicates '
+            '/ empty pieces / scheme prefix, file list (names, sizes, file_offset_) compared with the model and with an independent '
+            'expansion, then covered. Non-trivial = at '
             'least one state tuple observed; labels: carry-over (overflow_ non-empty), buffer-doubling, empty-part, multi-file.',
     'assumptions': ['files are non-empty and NUL-free (property text); total size < 2^55 bytes, num_parts < 2^32, buffer < 2^56 '
                     'words so that the size_t arithmetic (partition step, offset_curr_ + size, buffer doubling) does not wrap',
                     'a stream Read returns min(size, remaining) bytes (MemFS; FileStream on regular files): the model visits '
                     'each file once in the Read loop',
-                    'directory listing / URI expansion is exercised by the harness but not modelled (the model starts from the '
-                    'file list InitInputFileInfo produced)'],
+                    'file-list construction (Init / InitInputFileInfo / ConvertToURIs / StripEnd / URI parsing / recursive listing) is '
+                    'modelled over an abstract file system = harness/common/memfs.h (key-ordered listing; directories = proper '
+                    '/-prefixes of file names); the std::regex branch of ConvertToURIs is modelled with an abstract matcher and run '
+                    'with literal equality (names without regex metacharacters only); LocalFileSystem / readdir order is not modelled'],
     'trusted_base': ['modelled by hand, tied by correspondence only (results and internal state after every operation): control '
                      'flow of ResetPartition, BeforeFirst, Read, ReadChunk, Chunk::Load, NextRecord, NextChunk, LineSplitter::*'],
     'partial': [],
